@@ -248,7 +248,7 @@ fn gen_vec<T>(r: &mut Rng, max: u64, mut f: impl FnMut(&mut Rng) -> T) -> Vec<T>
 // ------------------------------------------------------------------------------------------------
 
 pub fn gen_typed(r: &mut Rng) -> TV {
-    match r.below(40) {
+    match r.below(45) {
         0 => TV::Unit,
         1 => TV::I32(gen_i32(r)),
         2 => TV::I64(gen_i64(r)),
@@ -311,6 +311,17 @@ pub fn gen_typed(r: &mut Rng) -> TV {
         35 => TV::HdrVec { n: gen_i32(r), items: gen_vec(r, 4, gen_i32), flag: r.chance(1, 2) },
         36 => TV::VecHdrVec(gen_vec(r, 3, |r| (gen_i32(r), gen_vec(r, 3, gen_i32), r.chance(1, 2)))),
         34 => TV::VecPlain(gen_vec(r, 4, |r| (gen_i32(r), gen_string(r), if r.chance(1, 2) { None } else { Some(gen_i64(r)) }))),
+        39 => TV::AttrStruct { a: gen_i32(r), b: gen_string(r), c: if r.chance(1, 2) { None } else { Some(gen_i64(r)) }, n: gen_i32(r) },
+        40 => TV::AttrOne { z: gen_i32(r), n: gen_i32(r) },
+        41 => {
+            let mut m = BTreeMap::new();
+            for _ in 0..r.below(4) {
+                m.insert(gen_string(r), gen_i32(r));
+            }
+            TV::AttrMap { m, n: gen_i32(r) }
+        }
+        42 => TV::AttrOpt { o: if r.chance(1, 3) { None } else { Some(gen_i32(r)) }, n: gen_i32(r) },
+        43 => TV::HdrBodyVec { v: gen_vec(r, 4, gen_i32), n: gen_i32(r) },
         38 => TV::AttrRows { rows: gen_vec(r, 3, |r| gen_vec(r, 3, gen_i32)), n: gen_i32(r) },
         37 => TV::Timestamp(match r.below(4) {
             0 => r.below(3) * 1_000_000,
